@@ -176,6 +176,12 @@ fn judge_solved(family: &str, problem: &PProblem, scen: Value, scope: Scope, sol
 /// Long runs: bigger problems, many generations, the default pipeline with 4 cpus (as the repository's feature tests run).
 pub fn long_scenarios(tier: Tier) -> Vec<(String, PProblem, SolveCfg)> {
     let mut out = vec![];
+    // one long tour: the sampled leg selection of the evaluator
+    for p in family_long50() {
+        for seed in 0..tier.pick(3u64, 16) {
+            out.push(("long50".to_string(), p.clone(), SolveCfg { population: PopKind::Default, hyper: HyperKind::Dynamic, generations: tier.pick(60, 300), seed: 200 + seed, cpus: 4, init_size: 4, ..SolveCfg::default() }));
+        }
+    }
     for (family, p) in family_line12().into_iter().map(|p| ("line12", p)).chain(family_mixed10().into_iter().map(|p| ("mixed10", p))) {
         for seed in 0..tier.pick(6u64, 64) {
             for generations in tier.pick(vec![300usize], vec![300, 1000]) {
@@ -334,7 +340,8 @@ pub fn replay(ctx: &RunCtx, scenario: &Value) -> Result<Vec<Violation>, String> 
         .into_iter()
         .find_map(|t| problems_for(t, Scope::Accounting).into_iter().find(|(f, p)| f == family && p.name == name))
         .or_else(|| family_line12().into_iter().find(|p| p.name == name).map(|p| ("line12".to_string(), p)))
-        .or_else(|| family_mixed10().into_iter().find(|p| p.name == name).map(|p| ("mixed10".to_string(), p)));
+        .or_else(|| family_mixed10().into_iter().find(|p| p.name == name).map(|p| ("mixed10".to_string(), p)))
+        .or_else(|| family_long50().into_iter().find(|p| p.name == name).map(|p| ("long50".to_string(), p)));
     let (family, problem) = found.ok_or("problem not found in the families")?;
     Ok(judge(&family, &problem, &cfg, scope_of(&ctx.id)).violations)
 }
